@@ -487,7 +487,7 @@ impl<'a> Exec<'a> {
         let mut r = MH::R(self.fresh_matcher(alt));
         if !hist.is_empty() {
             if let Err(e) = r.consume_tokens(&hist) {
-                if self.fault_free() {
+                if self.fault_free() && classify_err(&e.to_string()) != ErrClass::Limit {
                     return Err(self.viol(
                         "fresh_equivalence",
                         "fresh_rejects_history",
@@ -684,6 +684,10 @@ impl<'a> Exec<'a> {
             let (init, last) = btoks.split_at(btoks.len() - 1);
             if !init.is_empty() {
                 if let Err(e) = b.consume_tokens(init) {
+                    // the replica checks the row limit after every byte, the handle after every token
+                    if classify_err(&e.to_string()) == ErrClass::Limit {
+                        return self.skip("byte_replica_hit_limit");
+                    }
                     return Err(self.viol(
                         "split_invariance",
                         "byte_replica_rejects_history",
@@ -700,6 +704,9 @@ impl<'a> Exec<'a> {
             }
             b_prev = Some((b.clone(), last[0]));
             if let Err(e) = b.consume_tokens(last) {
+                if classify_err(&e.to_string()) == ErrClass::Limit {
+                    return self.skip("byte_replica_hit_limit");
+                }
                 return Err(self.viol(
                     "split_invariance",
                     "byte_replica_rejects_history",
@@ -1237,12 +1244,17 @@ impl<'a> Exec<'a> {
         // (i) every forced byte is the only byte the grammar allows at that position
         if !fb.is_empty() {
             let mut b = self.byte_matcher();
-            if !bytes.is_empty() && b.consume_tokens(&Self::byte_tokens(&bytes)).is_err() {
-                return Err(self.viol(
-                    "split_invariance",
-                    "byte_replica_rejects_history",
-                    format!("byte replica rejects {:?}", String::from_utf8_lossy(&bytes)),
-                ));
+            if !bytes.is_empty() {
+                if let Err(e) = b.consume_tokens(&Self::byte_tokens(&bytes)) {
+                    if classify_err(&e.to_string()) == ErrClass::Limit {
+                        return self.skip("byte_replica_hit_limit");
+                    }
+                    return Err(self.viol(
+                        "split_invariance",
+                        "byte_replica_rejects_history",
+                        format!("byte replica rejects {:?}: {}", String::from_utf8_lossy(&bytes), short(&e.to_string())),
+                    ));
+                }
             }
             for (i, &fbyte) in fb.iter().enumerate() {
                 if b.is_stopped() {
@@ -1262,6 +1274,9 @@ impl<'a> Exec<'a> {
                 let mask = match b.compute_mask() {
                     Ok(m) => m,
                     Err(e) => {
+                        if classify_err(&e.to_string()) == ErrClass::Limit {
+                            return self.skip("byte_replica_hit_limit");
+                        }
                         return Err(self.viol(
                             "forced_bytes_unique",
                             "forced_byte_replica_mask_failed",
